@@ -254,7 +254,9 @@ class Spec(EvalableModel):
 
             global_fanout = 1
             for p in parents:
-                if isinstance(p, Spatialable):
+                # A Compute earlier in the hierarchy branches off to the side; nodes that
+                # come after it are not inside it, so its fanout does not multiply them.
+                if isinstance(p, Spatialable) and not isinstance(p, Compute):
                     global_fanout *= p.get_fanout()
 
             orig: Component = self.arch.find(leaf.name)
